@@ -46,6 +46,21 @@ Bounds(e) ==
          /\ PO!PepCmp(NoLocal(PO!Greedy(e.pep440.s)), PO!Greedy(PepText(t))) = 0
     ELSE /\ t.epoch = NONE => (SvLess(SvText(t), e.semver.s) /\ SvLess(e.semver.s, SvText(Plain(t, 1))))
          /\ PepLess(PepText(t), e.pep440.s) /\ PepLess(e.pep440.s, PepText(Plain(t, 1)))
+\* a clean checkout at a pre-release tag of the shape flow produces yields that tag unchanged
+ShowsPost == {"", "-no-context", "-context", "-base-prerelease-post", "-base-prerelease-post-dev",
+              "-base-prerelease-post-context", "-base-prerelease-post-dev-context"}
+FlowShape(tg) == tg.pre.l # "none" /\ tg.pre.n # NONE /\ tg.post # NONE /\ tg.dev = NONE
+\* the tag itself as text: every component it carries is printed (fixed preset base-prerelease-post-dev)
+FullSchema == R!PresetSchema("standard", "-base-prerelease-post-dev", 0, 0, FALSE, FALSE)
+FullSv(vv)  == R!RenderSemVer(FullSchema, BareSt(vv))
+FullPep(vv) == R!RenderPep440(FullSchema, BareSt(vv))
+PreTagExact(e) ==
+  LET g == e.f  t == e.f.tag IN
+  (e.out.kind = "ok" /\ e.semver.ok /\ e.pep440.ok /\ FlowShape(t) /\ g.post = NONE /\ ~Active(CtxOf(g, FALSE)) /\ g.suffix \in ShowsPost) =>
+     /\ SO!SvCmp(SO!Parse(e.semver.s), SO!Parse(FullSv(t))) = 0
+     /\ PO!PepCmp(NoLocal(PO!Greedy(e.pep440.s)), PO!Greedy(FullPep(t))) = 0
+     /\ g.suffix \in {"", "-no-context", "-base-prerelease-post", "-base-prerelease-post-dev"}
+           => (e.semver.s = FullSv(t) /\ e.pep440.s = FullPep(t))
 Monotonic(e) ==
   LET g == e.f  res == FlowResult(e.f) IN
   (e.out.kind = "ok" /\ ~res.err /\ g.distance # NONE /\ ~g.clean /\ res.r.mode = "commit"
@@ -57,7 +72,7 @@ Monotonic(e) ==
 Reason(e) == IF e.panic THEN "panic"
              ELSE IF ~WellFormed(e) THEN (IF ~Components(e) THEN "components,wellformed" ELSE "wellformed")
              ELSE LET c == IF ~Components(e) THEN "components," ELSE ""
-                      b == IF ~Bounds(e) THEN "bounds," ELSE ""
+                      b == IF ~Bounds(e) \/ ~PreTagExact(e) THEN "bounds," ELSE ""
                       m == IF ~Monotonic(e) THEN "monotonic," ELSE ""
                   IN IF c \o b \o m = "" THEN "ok" ELSE c \o b \o m
 Next == /\ l <= Len(Rec)
